@@ -266,6 +266,9 @@ func emit(r *hx.Run, sub uint64, res caseResult) {
 		if len(f) >= 2 {
 			r.Count("op:" + f[0] + "." + f[1])
 		}
+		if len(f) >= 3 && f[1] == "new" && (f[0] == "bf") {
+			r.Count("cfg:" + f[0] + ".size=" + f[2])
+		}
 		a := strings.Fields(res.answers[i])
 		if len(a) > 0 && (a[0] == "panic" || strings.HasPrefix(a[0], "err") || a[0] == "bad-op" || a[0] == "nan" || a[0] == "inf" || a[0] == "hang") {
 			r.Count("ans:" + name + "." + a[0])
